@@ -160,10 +160,89 @@ except TraitError:
     return dict(reproduced=bool(violated), violated=violated, observed=res)
 
 
+def copy_traits_case(case):
+    """C14 (statement): clone_traits / deepcopy / pickle yield an object of the same class whose non-transient trait values
+    equal the original's, transient traits back at their defaults, no mutable container shared, copies live.  Classes mixing
+    plain, container, transient, delegated (declared before AND after their target), prototyped-with-local-value, property
+    and event traits, in both declaration orders."""
+    import copy
+    import pickle
+    from traits.api import (HasTraits, Instance, List, Dict, Int, Str, Event, Property, PrototypedFrom, DelegatesTo, TraitError)
+    violated = []
+
+    class Style(HasTraits):
+        color = Str("black")
+        size = Int(3)
+
+    def mk(order):
+        body = {}
+        decl = [("color", lambda: PrototypedFrom("style")), ("size", lambda: DelegatesTo("style")), ("style", lambda: Instance(Style)),
+                ("items", lambda: List(Int)), ("table", lambda: Dict(Str, Int)), ("label", lambda: Str("x")), ("scratch", lambda: Int(7, transient=True)),
+                ("ping", lambda: Event()), ("double", lambda: Property(Int, observe="count")), ("count", lambda: Int(1))]
+        if order == "target-first":
+            decl = [decl[2]] + decl[:2] + decl[3:]
+        elif order == "reversed":
+            decl = decl[::-1]
+        for n, f in decl:
+            body[n] = f()
+        body["_get_double"] = lambda self: 2 * self.count
+        body["_set_double"] = lambda self, v: setattr(self, "count", v // 2)
+        return type("Widget_" + order.replace("-", "_"), (HasTraits,), body)
+    for order in ("delegate-first", "target-first", "reversed"):
+        cls = mk(order)
+        globals()[cls.__name__] = cls            # picklable
+        cls.__module__ = __name__
+        cls.__qualname__ = cls.__name__
+        o = cls(style=Style(color="blue"))
+        o.color = "red"            # local value of the prototyped attribute
+        o.items = [1, 2, 3]
+        o.table = {"a": 1}
+        o.label = "hello"
+        o.scratch = 99
+        o.count = 5
+        for how, make in (("clone_traits()", lambda: o.clone_traits()), ("clone_traits(copy='deep')", lambda: o.clone_traits(copy="deep")),
+                          ("copy.deepcopy", lambda: copy.deepcopy(o)), ("pickle", lambda: pickle.loads(pickle.dumps(o)))):
+            try:
+                n = make()
+            except Exception as e:
+                if how == "pickle":
+                    continue          # dynamically created classes may not pickle: not what is probed here
+                violated.append("%s / %s raised %r" % (order, how, e))
+                continue
+            w = "%s / %s" % (order, how)
+            if type(n) is not cls:
+                violated.append("%s: class %r" % (w, type(n)))
+                continue
+            for name in ("color", "label", "count", "double"):
+                if getattr(n, name) != getattr(o, name):
+                    violated.append("%s: %s is %r, the original has %r" % (w, name, getattr(n, name), getattr(o, name)))
+            if list(n.items) != [1, 2, 3] or dict(n.table) != {"a": 1}:
+                violated.append("%s: container values differ: %r %r" % (w, n.items, n.table))
+            if n.style is None or n.style.color != "blue" or n.size != 3:
+                violated.append("%s: prototype / delegate target not carried over (style=%r)" % (w, n.style))
+            if n.scratch != 7:
+                violated.append("%s: transient trait is %r, default is 7" % (w, n.scratch))
+            if how != "clone_traits()" and (n.items is o.items or n.table is o.table or n.style is o.style):
+                violated.append("%s: a mutable value is shared with the original" % w)
+            if n.items is o.items:
+                violated.append("%s: the list object itself is shared" % w)
+            try:
+                n.items.append("bad")
+                violated.append("%s: the copy's list accepts an invalid item" % w)
+            except TraitError:
+                pass
+            seen = []
+            n.observe(lambda e: seen.append(e), "items.items")
+            n.items.append(4)
+            if len(seen) != 1 or list(o.items) != [1, 2, 3]:
+                violated.append("%s: list of the copy not live / not independent (events %d, original %r)" % (w, len(seen), list(o.items)))
+    return dict(reproduced=bool(violated), violated=violated[:8])
+
+
 def main():
     case = json.loads(sys.stdin.read())
     out = {"get_trait": get_trait_case, "clone": clone_case, "prefix_trait_unhashable": prefix_trait_unhashable_case,
-           "prefix_cache_inherited": prefix_cache_inherited_case}[case["family"]](case)
+           "prefix_cache_inherited": prefix_cache_inherited_case, "copy_traits": copy_traits_case}[case["family"]](case)
     print(json.dumps(out, default=repr))
 
 
